@@ -348,3 +348,66 @@ func (c *Ctx) runOptDeleg() {
 	}
 	c.R.Note("OPTDELEG", "%d delegation(s) between option constructors", n)
 }
+
+// runSubtableInstall (OPTORDER): the inner map of a by-subtype table is installed only where none is present yet.
+// `a.namedSub[name] = map[string]reflect.Value{st: rv}` executed unconditionally throws away every subtype recorded
+// earlier under that name — (name, subtype) pairs are distinct keys and must accumulate.
+func (c *Ctx) runSubtableInstall() {
+	p := c.P
+	n := 0
+	for _, f := range p.ArgFuncs() {
+		core.Instrs(f, func(in ssa.Instruction) {
+			mu, ok := in.(*ssa.MapUpdate)
+			if !ok {
+				return
+			}
+			fr, ok := core.AsFieldLoad(mu.Map)
+			if !ok || fr.Owner != "argBuilder" {
+				return
+			}
+			if _, isMap := mu.Value.Type().Underlying().(*types.Map); !isMap {
+				return
+			}
+			n++
+			absent := ""
+			keyPath := core.Path(mu.Key)
+			for _, l := range p.ILits(mu.Block()) {
+				var lk *ssa.Lookup
+				switch {
+				case l.Kind == "cmp" && l.Op == token.EQL && l.Pol:
+					for _, pr := range [][2]ssa.Value{{l.X, l.Y}, {l.Y, l.X}} {
+						if core.IsNilConst(pr[1]) {
+							if x, ok := core.Strip(pr[0]).(*ssa.Lookup); ok {
+								lk = x
+							}
+						}
+					}
+					// len(inner) == 0
+					if lk == nil {
+						for _, pr := range [][2]ssa.Value{{l.X, l.Y}, {l.Y, l.X}} {
+							if k, ok := core.ConstInt(pr[1]); ok && k == 0 {
+								if cl, ok := pr[0].(*ssa.Call); ok && core.CalleeName(cl.Common()) == "builtin.len" {
+									if x, ok := core.Strip(cl.Common().Args[0]).(*ssa.Lookup); ok {
+										lk = x
+									}
+								}
+							}
+						}
+					}
+				case l.Kind == "ok" && !l.Pol:
+					lk, _ = l.Of.(*ssa.Lookup)
+				}
+				if lk == nil {
+					continue
+				}
+				if lf, ok := core.AsFieldLoad(lk.X); ok && lf.Owner == fr.Owner && lf.Field == fr.Field && core.Path(lk.Index) == keyPath {
+					absent = l.String()
+				}
+			}
+			c.R.Func(core.FuncName(core.Outer(f)))
+			c.R.Add("OPTORDER", fmt.Sprintf("%s|inner-table-installed-only-when-absent#%d", core.FuncName(core.Outer(f)), n), core.FuncName(core.Outer(f)), p.InstrPos(mu), absent != "",
+				"the inner map of a by-subtype table is installed only where the builder has none for that key yet (entries under one name or type accumulate; a fresh map would drop the subtypes recorded earlier)",
+				ternary(absent != "", "under "+absent, fr.Field+"["+keyPath+"] is replaced by a new map without testing for an existing one"))
+		})
+	}
+}
